@@ -276,7 +276,7 @@ P["C04"] = {
              tierB("values", 3, 0, QT, require_reach=["tierB:execute-returned", "tierB:compound-fired-once"]), reuseB("reuseq", 2, QT), tierB("memo", 3, 0, T)]}
 
 
-NC07 = 33
+NC07 = len([f for f in os.listdir(os.path.join(V, "templates")) if f.startswith("c07_")])
 P["C07"] = {
     "design_ref": "DESIGN.md §8 C07 (b)", "assumptions": TIERB_ASSUME + ["each rule is observed through its candidate flag and through ALL facts after running its action list, on copies of the same symbolic facts"],
     "bounds": "33 near-identical sibling pairs (one constant digit beyond the 6th decimal / sign / exponent / int-vs-float / one character / case / quotes and brackets forging another snapshot; one operator; one negation (paren, atom, call); one selector; one field; argument order / count / value; operand order incl. string +; grouping; assignment form; method vs field), each built natively ALONE and TOGETHER in both build orders; facts symbolic",
